@@ -66,6 +66,8 @@ def encode(v):
     if isinstance(v, complex):
         return {"__complex__": [v.real, v.imag]}
     tn = type(v).__name__
+    if tn == "SimpleNamespace":
+        return {"__ns__": {k: encode(x) for k, x in vars(v).items()}}
     if tn == "Corr" and getattr(v, "N", None) == 1:
         return {"__corr__": [None if x is None else float(x[0].value) for x in v.content],
                 "prange": encode(v.prange), "tag": encode(v.tag)}
@@ -100,6 +102,9 @@ def decode(v):
             return {decode(k) if not isinstance(k, list) else tuple(k): decode(x) for k, x in v["__dict__"]}
         if "__float__" in v:
             return float(v["__float__"])
+        if "__ns__" in v:
+            import types
+            return types.SimpleNamespace(**{k: decode(x) for k, x in v["__ns__"].items()})
         if "__complex__" in v:
             return complex(*v["__complex__"])
         if "__corr__" in v:
@@ -133,6 +138,32 @@ def _truthy(x):
         return False
 
 
+def run_slice_native(C, args):
+    """execute the statement slice of a contract natively: the statements are taken from the AST of the real source, compiled
+    and run with the live-in variables as locals and the globals of the real module (so the real helpers / imports are used)"""
+    import ast
+    from .source import SourceRegistry
+    reg = SourceRegistry()
+    mod, fnode = reg.function(C.target, C.locate)
+    stmts = C.slice(mod, fnode)
+    rel = C.target.split("::", 1)[0]
+    real_mod = repo_module(rel[:-3].replace("/", "."))
+    # a one-iteration loop around the statements makes a `continue` of the sliced loop body legal
+    wrapper = ast.For(target=ast.Name(id="__once__", ctx=ast.Store()), iter=ast.List(elts=[ast.Constant(value=0)], ctx=ast.Load()),
+                      body=list(stmts), orelse=[], type_comment=None)
+    fdef = ast.FunctionDef(name="__slice__", args=ast.arguments(posonlyargs=[], args=[ast.arg(arg=k) for k in args], vararg=None,
+                                                                 kwonlyargs=[], kw_defaults=[], kwarg=None, defaults=[]),
+                           body=[wrapper, ast.Return(value=ast.Call(func=ast.Name(id="locals", ctx=ast.Load()), args=[], keywords=[]))],
+                           decorator_list=[], returns=None, type_comment=None, type_params=[])
+    module = ast.Module(body=[fdef], type_ignores=[])
+    ast.fix_missing_locations(module)
+    g = dict(vars(real_mod))
+    exec(compile(module, "<slice of %s>" % C.target, "exec"), g)
+    out = g["__slice__"](**args)
+    out.pop("__once__", None)
+    return Namespace(out)
+
+
 def run_native(C, nargs):
     """call the real code; returns (outcome, value_or_exception_class_name, post_args)"""
     call = C.native_call
@@ -140,6 +171,8 @@ def run_native(C, nargs):
     try:
         if call is not None:
             res = call(args)
+        elif getattr(C, "native_slice", False) and C.slice is not None:
+            res = run_slice_native(C, args)
         else:
             fn = real_function(C.target)
             import inspect
@@ -229,6 +262,8 @@ def same_native(a, b, tol=0.0):
     if isinstance(a, range) or isinstance(b, range):
         return isinstance(a, range) and isinstance(b, range) and a == b
     ta, tb_ = type(a).__name__, type(b).__name__
+    if ta == "SimpleNamespace" and tb_ == "SimpleNamespace":
+        return same_native(vars(a), vars(b), tol)
     if ta in ("Corr", "Obs", "CObs") or tb_ in ("Corr", "Obs", "CObs"):
         if ta != tb_:
             return False
